@@ -18,7 +18,19 @@ fn hostile(g: &mut Rng, id: &str) -> (Vec<u8>, String) {
         o.extend_from_slice(body);
         o
     };
-    match g.below(9) {
+    match g.below(10) {
+        9 => {
+            // a long uninterrupted run of small requests on one connection: thousands of requests
+            // the library refuses itself (unsupported version: the connection stays usable), or
+            // thousands of ordinary ones
+            let n = *g.pick(&[3000usize, 8000, 20_000]);
+            if g.chance(2, 3) {
+                let v = *g.pick(&["HTTP/2.0", "HTTP/3.0", "HTTP/1.2"]);
+                (format!("GET /v HTTP/1.1\r\n{}\r\n\r\n{}", idl, format!("GET / {}\r\n\r\n", v).repeat(n)).into_bytes(), "refused_version_flood".into())
+            } else {
+                (format!("GET /v HTTP/1.1\r\n{}\r\n\r\n{}", idl, "GET /f HTTP/1.1\r\n\r\n".repeat(n / 10)).into_bytes(), "request_flood".into())
+            }
+        }
         8 => {
             // TE lists with weights that are not ordinary numbers (the response path parses them)
             let n = *g.pick(&[1usize, 2, 5, 21, 22, 40, 200]);
@@ -98,7 +110,7 @@ impl Campaign for C14c {
         "C14"
     }
     fn rule(&self) -> &'static str {
-        "seeded scenarios: hostile requests (Content-Length from 256 MiB to usize::MAX with only 0..3000 body bytes sent, chunk sizes up to and beyond 16 hex digits, 1000..8000 header fields, header lines and request lines of 0.1..2 MiB, NUL/control/non-ASCII bytes, missing or bare-LF line ends, malformed chunk-size lines), optionally truncated at a random point, optionally after a good request, followed by the client closing or resetting; handlers read none / some / all of the body and then respond or drop, on the receiving thread or a handler thread. A counting global allocator records the largest single allocation request and the live-bytes peak of each run and refuses requests above 1 GiB (injected allocation failure => abort, seen by the orchestrator as a dead worker); a process-wide panic hook records the location of every panic. Non-trivial = the hostile request was delivered to the application or rejected after more than 4096 bytes; distinct = interleaving fingerprint"
+        "seeded scenarios: hostile requests (Content-Length from 256 MiB to usize::MAX with only 0..3000 body bytes sent, chunk sizes up to and beyond 16 hex digits, 1000..8000 header fields, header lines and request lines of 0.1..2 MiB, NUL/control/non-ASCII bytes, missing or bare-LF line ends, malformed chunk-size lines, uninterrupted runs of 3000..20000 requests with a refused version or 300..2000 ordinary ones on one connection, with the 2 MiB thread stacks of std), optionally truncated at a random point, optionally after a good request, followed by the client closing or resetting; handlers read none / some / all of the body and then respond or drop, on the receiving thread or a handler thread. A counting global allocator records the largest single allocation request and the live-bytes peak of each run and refuses requests above 1 GiB (injected allocation failure => abort, seen by the orchestrator as a dead worker); a process-wide panic hook records the location of every panic. Non-trivial = the hostile request was delivered to the application or rejected after more than 4096 bytes; distinct = interleaving fingerprint"
     }
     fn runs(&self, tier: Tier) -> u64 {
         match tier {
@@ -130,6 +142,8 @@ impl Campaign for C14c {
             bad.truncate(cut);
         }
         msgs.push(bad);
+        // depth of recursion is only meaningful against the stack std gives a spawned thread
+        sc.knobs.std_stack = class.ends_with("_flood");
         let body = match g.below(5) {
             0 | 1 => BodyPlan::None,
             2 => BodyPlan::Sizes(vec![*g.pick(&[1usize, 100, 5000])]),
